@@ -19,6 +19,8 @@ try:
 except ValueError:
     SEED = 0
 NPROC = int(os.environ.get('VERIF_NPROC', '16'))
+# no result from any worker for this long = the code under test hangs (e.g. spins in compiled code): a violation
+HANG_S = float(os.environ.get('VERIF_HANG_S', '900'))
 THOROUGH = TIER == 'thorough'
 
 
@@ -110,6 +112,11 @@ def _run_one(chk, clause, case):
     return out
 
 
+def _worker_batch_tagged(arg):
+    i, batch = arg
+    return i, _worker_batch(batch)
+
+
 def _worker_batch(batch):
     chk = _W['chk']
     chk.notes = collections.Counter()
@@ -189,8 +196,30 @@ class Check:
         if parallel and NPROC > 1:
             ctx = mp.get_context('fork')
             _W['chk'] = self
+            pending = collections.OrderedDict()
+
+            def tagged():
+                for i, b in enumerate(batches()):
+                    pending[i] = b
+                    yield i, b
             with ctx.Pool(NPROC, initializer=_worker_init) as pool:
-                for n, res, notes in pool.imap_unordered(_worker_batch, batches()):
+                it = pool.imap_unordered(_worker_batch_tagged, tagged())
+                while True:
+                    try:
+                        i, (n, res, notes) = it.next(timeout=HANG_S)
+                    except StopIteration:
+                        break
+                    except mp.TimeoutError:
+                        stuck = [pending[k] for k in sorted(pending)[:NPROC]]
+                        clause, case = stuck[0][0]
+                        self.record(clause, case, [Fail(key='no-result-within-%ds' % HANG_S,
+                                                        msg='no worker delivered a result for %d s: the code under test does not return '
+                                                            '(one of the %d cases in flight, the first of which is recorded here)'
+                                                            % (HANG_S, sum(len(b) for b in stuck)))])
+                        self.capped.append('run stopped by the no-progress watchdog after %d s' % HANG_S)
+                        pool.terminate()
+                        break
+                    pending.pop(i, None)
                     for clause, case, fails in res:
                         self.record(clause, case, fails)
                     for k, v in notes.items():
@@ -378,9 +407,27 @@ class Explorer:
         try:
             for depth in range(1, self.max_depth + 1):
                 nxt = []
-                it = (pool.imap(_bfs_worker, frontier, chunksize=4) if pool
-                      else map(_bfs_worker, frontier))
-                for hist, succ, notes in it:
+                it = (pool.imap(_bfs_worker, frontier, chunksize=1) if pool
+                      else iter(map(_bfs_worker, frontier)))
+                done = 0
+                while True:
+                    try:
+                        hist, succ, notes = it.next(timeout=HANG_S) if pool else next(it)
+                    except StopIteration:
+                        break
+                    except mp.TimeoutError:
+                        h = frontier[min(done, len(frontier) - 1)]
+                        chk.record(self.name, {'history': h},
+                                   [Fail(key='no-result-within-%ds' % HANG_S,
+                                         msg='no worker delivered a result for %d s while expanding histories at depth %d: the code '
+                                             'under test does not return (history recorded: the first unexpanded one)' % (HANG_S, depth))])
+                        chk.capped.append('%s: stopped by the no-progress watchdog after %d s' % (self.name, HANG_S))
+                        pool.terminate()
+                        pool = None
+                        frontier = []
+                        nxt = []
+                        break
+                    done += 1
                     for k, v in notes.items():
                         chk.notes[k] += v
                     for op, c, fails in succ:
